@@ -360,6 +360,7 @@ class Emitter:
     def __init__(self, ast, externals=None, opaque=None, abs_arith=False, type_map=None, extern_funcs=None):
         self.ast = ast
         self.structs = {}          # cname -> definition text
+        self.tagkind = {}
         self.struct_order = []
         self.struct_pending = set()
         self.fn_done = {}          # canon id -> cname
@@ -392,6 +393,7 @@ class Emitter:
 
     def strip_cv(self, qt):
         qt = re.sub(r"\b(const|volatile|struct|class|enum|typename)\b", "", qt)
+        qt = re.sub(r"\bunion\s+(?=[A-Za-z_(])", "", qt)
         return re.sub(r"\s+", " ", qt).strip()
 
     def resolve_typedef(self, t):
@@ -448,7 +450,8 @@ class Emitter:
         if n in self.ast.enumtypes or re.search(r"::\(unnamed enum", n):
             return "int", ptr, arr
         if n in self.ast.records:
-            return "struct " + self.need_struct(n), ptr, arr
+            cn = self.need_struct(n)
+            return self.tagkind.get(cn, "struct") + " " + cn, ptr, arr
         # a record whose definition was not seen under this exact spelling
         raise Unsupported("type %r has no C mapping" % qt)
 
@@ -468,6 +471,8 @@ class Emitter:
             return cname
         self.struct_pending.add(cname)
         rec = self.ast.records[n]
+        tag = "union" if rec.get("tagUsed") == "union" else "struct"
+        self.tagkind[cname] = tag
         lines = []
         bases = rec.get("bases", []) or []
         if len(bases) > 1:
@@ -496,7 +501,7 @@ class Emitter:
                     raise Unsupported("non-trivial destructor in " + n)
         if nfields == 0 and not bases:
             lines.append("    char _empty;")
-        self.structs[cname] = "struct %s\n{\n%s\n};\n" % (cname, "\n".join(lines))
+        self.structs[cname] = "%s %s\n{\n%s\n};\n" % (tag, cname, "\n".join(lines))
         self.struct_order.append(cname)
         self.struct_pending.discard(cname)
         return cname
@@ -519,7 +524,7 @@ class Emitter:
         b, p, a = self.ctype(qt)
         if p:
             return "0"
-        if b.startswith("struct "):
+        if b.startswith("struct ") or b.startswith("union "):
             return "(%s){0}" % b
         return "0"
 
@@ -532,6 +537,8 @@ class Emitter:
             raise Unsupported("function %s has no body in the AST" % self.ast.qual.get(canon, canon))
         q, ps, c = self.ast.func_key(n)
         cname = fn_cname(q, ps, c)
+        if n.get("kind") == "FunctionDecl" and not ps and "__" not in cname:
+            cname = "Imath_" + cname   # parameterless free functions could collide with libc (drand48, lrand48)
         if cname in self.fn_done.values():
             cname += "_" + hashlib.sha1(n.get("mangledName", canon).encode()).hexdigest()[:6]
         self.fn_done[canon] = cname
@@ -611,7 +618,7 @@ class Emitter:
         out.append("#ifndef %s\n#define %s" % (guard, guard))
         out.append('#include "cxx2c_rt.h"\n')
         for s in self.struct_order:
-            out.append("struct %s;" % s)
+            out.append("%s %s;" % (self.tagkind.get(s, "struct"), s))
         out.append("")
         for s in self.struct_order:
             out.append(self.structs[s])
@@ -706,6 +713,14 @@ class FuncEmitter:
             params.append(self.em.decl(qt if not self.em.is_ref(qt0) else qt0, name))
             self.local_names[p["id"]] = name
         rt = self.rtype
+        pk = ["this"] if self.is_method else []
+        for p in self.ast.func_params(n):
+            q0 = p["type"]["qualType"]
+            qd = p["type"].get("desugaredQualType") or q0
+            pk.append("ref" if (self.em.is_ref(q0) or self.em.is_ref(qd)) else ("ptr" if self.em.strip_cv(qd).endswith("*") or "[" in qd else "val"))
+        if not hasattr(self.em, "fn_pkinds"):
+            self.em.fn_pkinds = {}
+        self.em.fn_pkinds[self.cname] = pk
         proto = "%s(%s)" % (self.em.decl(rt, self.cname), ", ".join(params) if params else "void")
         body = None
         inits = []
@@ -939,6 +954,9 @@ class FuncEmitter:
         k = d.get("kind")
         if k in ("TypedefDecl", "TypeAliasDecl", "StaticAssertDecl", "UsingDecl", "EmptyDecl", "UsingDirectiveDecl"):
             return None
+        if k == "CXXRecordDecl":
+            self.pending_local_record = d
+            return None
         if k != "VarDecl":
             self.fail("local declaration " + str(k))
         name = d["name"]
@@ -947,6 +965,13 @@ class FuncEmitter:
         self.local_names[d["id"]] = cn
         qt0 = d["type"]["qualType"]
         qt = d["type"].get("desugaredQualType") or qt0
+        if "(unnamed" in qt and getattr(self, "pending_local_record", None) is not None:
+            key = strip_ns(norm_type(self.em.strip_cv(qt)))
+            self.em.local_n = getattr(self.em, "local_n", 0) + 1
+            alias = "local_%s_%d" % (self.cname[:40], self.em.local_n)
+            self.ast.records[alias] = self.pending_local_record
+            self.em.type_map[key] = alias
+            self.pending_local_record = None
         if d.get("storageClass") == "static":
             # function-local static constant: emit as plain local if initialised by a constant expression
             pass
